@@ -7,7 +7,7 @@
    [*cfg_ok] facts about the buffer (a real object that does not wrap the address space). *)
 From Coq Require Import ZArith List Bool Permutation.
 From Base Require Import LuaInt.
-From C11 Require Import Gen Model Heap HeapA Spec SpecHeap ProofsArena ProofsStack ProofsPool ProofsHeap ProofsHeapNaf.
+From C11 Require Import Gen Model Heap HeapA Spec SpecHeap ProofsArena ProofsStack ProofsPool ProofsHeap ProofsHeapNaf ProofsHeapBytes RefineHeap RefineTop Iface ProofsIface Aligned ProofsAligned.
 Import ListNotations.
 Local Open Scope Z_scope.
 
@@ -113,3 +113,152 @@ Theorem C11_heap_release_all_restores : forall c ops s n,
   ha_alloc c s n = ha_alloc c ha_init_state n.
 Proof. exact heap_release_all_restores_proof. Qed.
 Print Assumptions C11_heap_release_all_restores.
+
+(* ---------------- heap: the memory-level model (Heap.v, the one compared word by word with the code) ---- *)
+(* refinement: on every history the memory-level model (header words, prev_adj/next/prev links, bin
+   heads, NODE_COOKIE marks) never panics, returns exactly the pointers the abstract model returns,
+   and ends in a memory that represents the abstract final state ([SR]/[Rep]: sizes, prev_adj chain,
+   used marks, end node, doubly linked bins).  So C11_heap_safe / _no_adjacent_free /
+   _release_all_restores speak about the states of the memory-level model *)
+Theorem C11_heap_refinement : forall c ops, hcfg_ok c -> Forall hop_usize ops ->
+  exists s sa live,
+    crun c (heap_init_state, []) ops = Some (s, live) /\
+    hrun c (ha_init_state, []) ops = Some (sa, live) /\ SR c s sa.
+Proof. exact heap_refinement_proof. Qed.
+Print Assumptions C11_heap_refinement.
+
+Theorem C11_heap_mem_safe : forall c ops, hcfg_ok c -> Forall hop_usize ops ->
+  exists s live, crun c (heap_init_state, []) ops = Some (s, live) /\
+                 good_blocks (h_base c) (h_size c) ALLOC_ALIGN live.
+Proof. exact heap_mem_safe_proof. Qed.
+Print Assumptions C11_heap_mem_safe.
+
+(* the cookie test: a pointer to the header of a free chunk is rejected by the memory-level dealloc *)
+Theorem C11_heap_mem_free_header_reported : forall c ops s sa live x,
+  hcfg_ok c -> Forall hop_usize ops ->
+  crun c (heap_init_state, []) ops = Some (s, live) -> hrun c (ha_init_state, []) ops = Some (sa, live) ->
+  ha_initialized sa = true -> In x (ha_chunks sa) -> c_used x = false ->
+  hp_dealloc s (c_addr x + NODE) = HPanic.
+Proof. exact heap_mem_free_header_reported_proof. Qed.
+Print Assumptions C11_heap_mem_free_header_reported.
+
+(* ---------------- heap: payload contents (byte functions, as for the arena) ---------------- *)
+(* realloc keeps the first min(old,new) bytes of the block - also when it moves it (memory.copy of
+   the whole old chunk into a fresh, strictly larger chunk) - and every byte of every other live block *)
+Theorem C11_heap_realloc_preserves : forall c ops sa live i b n (bts : Z -> Z) s' q,
+  hcfg_ok c -> Forall hop_usize ops -> hrun c (ha_init_state, []) ops = Some (sa, live) ->
+  nth_error live i = Some b -> 0 < n < two64 ->
+  hb_realloc c (mkhb sa bts) (b_addr b) n (b_size b) = HOk (s', q) -> q <> 0 ->
+  (forall k, 0 <= k < Z.min n (b_size b) -> hb_bytes s' (q + k) = bts (b_addr b + k)) /\
+  (forall j b', j <> i -> nth_error live j = Some b' ->
+     forall k, 0 <= k < b_size b' -> hb_bytes s' (b_addr b' + k) = bts (b_addr b' + k)).
+Proof. exact heap_realloc_preserves_proof. Qed.
+Print Assumptions C11_heap_realloc_preserves.
+
+Theorem C11_heap_alloc0_zeroes : forall c s n s1 p s0,
+  hb_alloc c s n = HOk (s1, p) -> hb_alloc0 c s n = HOk (s0, p) -> p <> 0 ->
+  forall x, hb_bytes s0 x = if (p <=? x) && (x <? p + n) then 0 else hb_bytes s x.
+Proof. exact heap_alloc0_zeroes_proof. Qed.
+Print Assumptions C11_heap_alloc0_zeroes.
+
+Theorem C11_heap_realloc0_zeroes : forall c s p n old s1 q s0,
+  hb_realloc c s p n old = HOk (s1, q) -> hb_realloc0 c s p n old = HOk (s0, q) ->
+  q <> 0 -> old < n ->
+  forall x, hb_bytes s0 x = if (q + old <=? x) && (x <? q + n) then 0 else hb_bytes s1 x.
+Proof. exact heap_realloc0_zeroes_proof. Qed.
+Print Assumptions C11_heap_realloc0_zeroes.
+
+(* ---------------- the derived operations of Allocator_implement_interface ---------------- *)
+(* generic in the allocator: each wrapper is the stated primitive call(s); what it writes lies in
+   the block just obtained; the x* variants only turn an out-of-memory nil into a panic *)
+Theorem C11_iface_alloc0 : forall S (p_alloc : S -> Z -> option (S * Z)) s n s' p w,
+  i_alloc0 S p_alloc s n = Some (s', p, w) <->
+  p_alloc s n = Some (s', p) /\ w = (if p =? 0 then [] else [WZero p n]).
+Proof. exact alloc0_spec. Qed.
+Print Assumptions C11_iface_alloc0.
+
+Theorem C11_iface_xalloc : forall S (p_alloc : S -> Z -> option (S * Z)) s n s' p,
+  i_xalloc S p_alloc s n = Some (s', p) -> p_alloc s n = Some (s', p) /\ (p <> 0 \/ n <= 0).
+Proof. exact xalloc_some. Qed.
+Print Assumptions C11_iface_xalloc.
+
+Theorem C11_iface_xrealloc : forall S (p_realloc : S -> Z -> Z -> Z -> option (S * Z)) s p n old s' q,
+  i_xrealloc S p_realloc s p n old = Some (s', q) -> p_realloc s p n old = Some (s', q) /\ (q <> 0 \/ n <= 0).
+Proof. exact xrealloc_some. Qed.
+Print Assumptions C11_iface_xrealloc.
+
+Theorem C11_iface_realloc0 : forall S (p_realloc : S -> Z -> Z -> Z -> option (S * Z)) s p n old s' q w,
+  i_realloc0 S p_realloc s p n old = Some (s', q, w) ->
+  p_realloc s p n old = Some (s', q) /\
+  (w = [] \/ (w = [WZero (q + old) (n - old)] /\ q <> 0 /\ old < n)).
+Proof. exact realloc0_spec. Qed.
+Print Assumptions C11_iface_realloc0.
+
+Theorem C11_iface_spanalloc : forall S (p_alloc : S -> Z -> option (S * Z)) s t count s' sp,
+  i_spanalloc S p_alloc s t count = Some (s', sp) -> fst sp <> 0 ->
+  snd sp = count /\ p_alloc s (w64 (count * t)) = Some (s', fst sp) /\
+  (0 <= count * t < two64 -> span_extent t sp = mkblk (fst sp) (w64 (count * t))).
+Proof. exact spanalloc_spec. Qed.
+Print Assumptions C11_iface_spanalloc.
+
+Theorem C11_iface_spanrealloc : forall S (p_alloc : S -> Z -> option (S * Z)) (p_realloc : S -> Z -> Z -> Z -> option (S * Z)) s t sp count s' sp',
+  i_spanrealloc S p_alloc p_realloc s t sp count = Some (s', sp') -> snd sp <> 0 ->
+  exists q, p_realloc s (fst sp) (w64 (count * t)) (w64 (snd sp * t)) = Some (s', q) /\
+            (sp' = sp \/ sp' = (q, count)).
+Proof. exact spanrealloc_spec. Qed.
+Print Assumptions C11_iface_spanrealloc.
+
+Theorem C11_iface_new : forall S (p_alloc : S -> Z -> option (S * Z)) s t s' p w,
+  i_new S p_alloc s t = Some (s', p, w) ->
+  let n := if t =? 0 then 1 else t in
+  p_alloc s n = Some (s', p) /\ (p <> 0 -> w = [WZero p n]) /\ (0 < n -> p <> 0).
+Proof. intros S p_alloc. exact (new_spec S p_alloc (fun _ _ => None) (fun _ _ _ _ => None)). Qed.
+Print Assumptions C11_iface_new.
+
+(* the span variants multiply count * #T without an overflow test (known finding): on the arena,
+   spanalloc(@uint32, 2^62+1) returns a non-empty span that is not inside the buffer ... *)
+Theorem C11_arena_span_in_refuted : ~ arena_span_in_full.
+Proof. exact arena_span_in_refuted_proof. Qed.
+Print Assumptions C11_arena_span_in_refuted.
+
+(* ... and without wrap-around the bytes a span claims are a good block like any other *)
+Theorem C11_arena_span_in_partial : forall c ops s live t count s' sp,
+  acfg_ok c -> Forall aop_usize ops -> arun c (arena_init, []) ops = Some (s, live) ->
+  0 <= count * t < two64 ->
+  i_spanalloc astate (arena_alloc c) s t count = Some (s', sp) -> fst sp <> 0 ->
+  good_blocks (a_base c) (a_size c) (a_align c) (live ++ [span_extent t sp]).
+Proof. exact arena_span_in_partial_proof. Qed.
+Print Assumptions C11_arena_span_in_partial.
+
+(* ---------------- AlignedAllocator (aligned.nelua, over the arena) ---------------- *)
+(* the alignment arithmetic: the returned address is a multiple of ALIGN, lies at least a pointer
+   above the block obtained from the wrapped allocator, the user block fits inside that block, and
+   the header word just below it is inside the block too *)
+Theorem C11_aligned_arith : forall c origp size,
+  pow2 (g_align c) -> PTR_SIZE <= g_align c -> 0 < origp -> 0 <= size ->
+  origp + size + PTR_SIZE + g_align c <= two64 ->
+  let addr := al_addr c origp in
+  al_request c size = size + (PTR_SIZE + g_align c - 1) /\
+  addr mod g_align c = 0 /\ origp + PTR_SIZE <= addr /\
+  addr + size <= origp + al_request c size /\
+  w64 (addr - PTR_SIZE) = addr - PTR_SIZE /\ origp <= addr - PTR_SIZE.
+Proof. exact aligned_arith_proof. Qed.
+Print Assumptions C11_aligned_arith.
+
+(* alloc: aligned, inside the over-allocated block, original pointer recoverable (get_realptr) *)
+Theorem C11_aligned_alloc_spec : forall c s size s' p,
+  pow2 (g_align c) -> PTR_SIZE <= g_align c -> 0 <= size ->
+  size + PTR_SIZE + g_align c <= two64 ->
+  (forall a' origp, arena_alloc (g_inner c) (g_arena s) (al_request c size) = Some (a', origp) -> origp <> 0 ->
+     0 < origp /\ origp + al_request c size <= two64 - 1) ->
+  aligned_alloc c s size = Some (s', p) -> p <> 0 ->
+  exists origp, arena_alloc (g_inner c) (g_arena s) (al_request c size) = Some (g_arena s', origp) /\ origp <> 0 /\
+    p mod g_align c = 0 /\ origp + PTR_SIZE <= p /\ p + size <= origp + al_request c size /\
+    aligned_realptr s' p = origp.
+Proof. exact aligned_alloc_spec_proof. Qed.
+Print Assumptions C11_aligned_alloc_spec.
+
+(* size + #pointer + ALIGN - 1 wraps (known finding): alloc(2^64-8) returns a pointer *)
+Theorem C11_aligned_fits_refuted : ~ aligned_fits_full.
+Proof. exact aligned_fits_refuted_proof. Qed.
+Print Assumptions C11_aligned_fits_refuted.
